@@ -10,7 +10,7 @@ ROT = {0: ("exec", "query", "sudo"), 1: ("query", "sudo", "exec"), 2: ("sudo", "
 CONTEXTS = [
     {"sender": "sender0", "funds": [], "height": 1, "storage": {}, "api_prefix": "cosmwasm", "balance": "0", "contract": "contract0"},
     {"sender": "sender1", "funds": [["atom", "5"]], "height": 777, "storage": {"probe": "P1"}, "api_prefix": "osmo", "balance": "42", "contract": "contract1"},
-    {"sender": "sender0", "funds": [["atom", "5"], ["btc", "1"]], "height": 777, "storage": {"probe": "P2"}, "api_prefix": "cosmwasm", "balance": "42", "contract": "contract0"},
+    {"sender": "sender0", "funds": [["btc", "1"], ["atom", "5"], ["atom", "2"]], "height": 777, "storage": {"probe": "P2"}, "api_prefix": "cosmwasm", "balance": "42", "contract": "contract0"},
     {"sender": "sender1", "funds": [], "height": 1, "storage": {}, "api_prefix": "osmo", "balance": "0", "contract": "contract1"},
 ]
 FAIL_CONTEXTS = [dict(c, storage=dict(c["storage"], fail="1")) for c in CONTEXTS[:2]]
@@ -45,6 +45,10 @@ def types_program(types):
     ex.append(Method("exec", "q0", (Arg("a", "u32"), Arg("b1", "String"), Arg("_c", "u32"))))
     ex.append(Method("exec", "q1", (Arg("x_y", "String"), Arg("r#type", "u32"), Arg("msg", "String"))))
     ss.append(Method("sudo", "q2", (Arg("msg", "u32"), Arg("a", "u32"), Arg("b1", "u32"))))
+    # argument names equal to locals of the generated dispatch / entry point functions
+    ex.append(Method("exec", "q3", (Arg("contract", "u32"), Arg("field1", "String"), Arg("env", "u32"))))
+    ss.append(Method("sudo", "q4", (Arg("deps", "u32"), Arg("info", "u32"), Arg("contract", "String"))))
+    qs.append(Method("query", "q5", (Arg("contract", "u32"), Arg("querier", "String"))))
     ms = [Method("instantiate", "inst", (Arg("a", "u32"), Arg("b1", "String"), Arg("r#type", "Inner"))),
           Method("migrate", "mig", (Arg("x_y", "Option<u32>"), Arg("msg", "Vec<String>")))]
     return Contract(methods=tuple(ms + ex + idq), interfaces=(iface(0, qs), iface(1, ss)), entry_points="")
